@@ -25,6 +25,11 @@ func (d *deduplicateSingleFetches) ProcessFetchTree(root *resolve.FetchTreeNode)
 				newId := root.ChildNodes[i].Item.Fetch.Dependencies().FetchID
 				oldId := root.ChildNodes[j].Item.Fetch.Dependencies().FetchID
 
+				// the surviving fetch now serves the response positions of both fetches: it has to wait
+				// for everything the removed fetch was waiting for (e.g. the fetch that loads the parent
+				// object under the other type condition), otherwise it may run before its input exists
+				d.mergeDependencies(root.ChildNodes[i].Item, root.ChildNodes[j].Item)
+
 				root.ChildNodes = append(root.ChildNodes[:j], root.ChildNodes[j+1:]...)
 				j--
 
@@ -32,6 +37,16 @@ func (d *deduplicateSingleFetches) ProcessFetchTree(root *resolve.FetchTreeNode)
 				// because they might depend on the fetch that we are removing
 				replaceDependsOnFetchID(root, oldId, newId)
 			}
+		}
+	}
+}
+
+// mergeDependencies adds the dependencies of the removed fetch to the surviving one.
+func (d *deduplicateSingleFetches) mergeDependencies(survivor, removed *resolve.FetchItem) {
+	deps := survivor.Fetch.Dependencies()
+	for _, id := range removed.Fetch.Dependencies().DependsOnFetchIDs {
+		if id != deps.FetchID && !slices.Contains(deps.DependsOnFetchIDs, id) {
+			deps.DependsOnFetchIDs = append(deps.DependsOnFetchIDs, id)
 		}
 	}
 }
